@@ -6,6 +6,7 @@ CONSTANTS
   MaxLines = 3
   MaxCols = 4
   MaxEdits = 3
+  MaxSize2 = 14
   MaxSize3 = 7
   Texts3 = 3
 INVARIANTS InitWellFormed PartialCanonical OrderIndependent PendingApplicable Frame
